@@ -5,6 +5,7 @@
 #![allow(dead_code)]
 
 use crate::bind::*;
+use crate::chess::Game;
 use crate::explore::*;
 use crate::json::{self, J};
 use crate::props::core::*;
@@ -349,11 +350,36 @@ fn rj(fen: &str) -> J {
 }
 
 pub fn check_root(p: &Pos, class: Class, solver: &mut Solver, acc: &mut Acc) {
-    let fen = p.fen6(false);
-    let Ok(g) = load(p) else {
-        acc.errors.push(format!("cannot load {}", fen));
+    check_root_counters(p, class, solver, acc, None)
+}
+
+/// the move counters a FEN carries are no reason to miss a mate or to invent a move: the same check with the halfmove
+/// clock / fullmove number of the root's text set to a pair of a boundary grid
+pub const COUNTER_GRID: [(u32, u32); 6] = [(99, 80), (100, 80), (101, 90), (150, 200), (255, 300), (9999, 9999)];
+
+pub fn check_root_counters(p: &Pos, class: Class, solver: &mut Solver, acc: &mut Acc, counters: Option<(u32, u32)>) {
+    let fen = match counters {
+        None => p.fen6(false),
+        Some((h, f)) => format!("{} {} {}", p.fen4(false), h, f),
+    };
+    let g = match counters {
+        None => load(p).ok(),
+        Some(_) => match guarded(|| Game::new(&fen)) {
+            Ok(Ok(g)) => Some(g),
+            _ => None,
+        },
+    };
+    let Some(g) = g else {
+        if counters.is_none() {
+            acc.errors.push(format!("cannot load {}", fen));
+        } else {
+            acc.count("roots with move counters that the reader refuses or crashes on (C17's business)");
+        }
         return;
     };
+    if counters.is_some() {
+        acc.count("roots searched again with move counters in their FEN");
+    }
     let modes: Vec<(Option<u8>, &str)> = match class {
         Class::MateIn1 => vec![(None, "unlimited"), (Some(3), "depth 3")],
         Class::MateIn2 => vec![(None, "unlimited"), (Some(5), "depth 5")],
@@ -491,6 +517,11 @@ pub fn run(tier: &str, seed: i64) -> Outcome {
             if class != Class::Other && !skip {
                 check_root(ctx.pos, class, &mut s, acc);
                 check_root_with_history(ctx.pos, class, acc);
+                // a fixed eighth of the roots (chosen by the position itself, not by the order of the enumeration)
+                let k: u32 = ctx.pos.key().iter().map(|&b| b as u32).sum();
+                if k % 8 == 0 {
+                    check_root_counters(ctx.pos, class, &mut s, acc, Some(COUNTER_GRID[((k / 8) % 6) as usize]));
+                }
                 if acc.samples.len() < 3 {
                     acc.sample(json::obj(vec![("root", json::s(ctx.pos.fen6(false))), ("class", json::s(format!("{:?}", class)))]));
                 }
@@ -546,6 +577,12 @@ pub fn replay(j: &J) -> Result<Acc, String> {
     let class = classify(&p, &mut s);
     let mut acc = Acc::new();
     out!("  class {:?}", class);
-    check_root(&p, class, &mut s, &mut acc);
+    // the replay's FEN carries the counters the failing run used
+    let f: Vec<&str> = fen.split_whitespace().collect();
+    let counters = match (f.get(4).and_then(|x| x.parse::<u32>().ok()), f.get(5).and_then(|x| x.parse::<u32>().ok())) {
+        (Some(h), Some(m)) if (h, m) != (0, 1) => Some((h, m)),
+        _ => None,
+    };
+    check_root_counters(&p, class, &mut s, &mut acc, counters);
     Ok(acc)
 }
